@@ -40,6 +40,24 @@ _tls = threading.local()
 _WORLD: 'World | None' = None
 
 
+class WouldBlock(RuntimeError):
+    """Raised instead of blocking when an observation (harness code inside
+    `nonblocking()`) touches a future that has not completed."""
+
+
+class nonblocking:
+    """Observations must never change the schedule of the code under test:
+    inside this context a wait on a pending future raises WouldBlock, a wait
+    on a completed one returns without a scheduling point or a log entry."""
+
+    def __enter__(self) -> None:
+        self._prev = getattr(_tls, 'peeking', False)
+        _tls.peeking = True
+
+    def __exit__(self, *a: Any) -> None:
+        _tls.peeking = self._prev
+
+
 class SimStall(RuntimeError):
     """Raised inside rank threads when the world stalled / was aborted."""
 
@@ -1139,6 +1157,10 @@ def _install_patches() -> None:
 
     def wait(self):
         w = _w()
+        if getattr(_tls, 'peeking', False):
+            if not self.done():
+                raise WouldBlock()
+            return orig_wait(self)
         if w is None:
             return orig_wait(self)
         return w.wait_future(self, orig_wait)
